@@ -165,6 +165,13 @@ def run(tier, seed, replay=None):
         progs = []
     for t in roots:
         progs.append((laygen.program(t), sig(t)[:70], t))
+    if not replay:
+        # dynamic arrays of composite elements: appended literals and copies of the array's own elements appended
+        # through a mutable reference (the append may move the buffer the element is read from)
+        elems = [t for t in d1 if t["k"] == "st"] + [t for t in d2 if t["k"] == "ar" and t["kids"][0]["k"] == "p"] + \
+                [{"k": "p", "n": n, "a": 0, "kids": []} for n in ("u128", "i256")]
+        for t in rnd.sample(elems, min(len(elems), 24 if tier == "quick" else 400)):
+            progs.append((laygen.dyn_program(t), "dyn[" + sig(t)[:60] + "]", t))
     plist = [(p, n) for p, n, _ in progs]
     obs_n = semrun.observe(env, plist, "native")
     widx = [i for i, (_, _, t) in enumerate(progs) if t is None or laygen.wasm_ok(t)]
